@@ -192,7 +192,11 @@ def move_laws(line, out):
             if p in post["ents"] and not under(p, dt):
                 return False                      # the source is gone
             a, b = observable(pre, p), observable(post, q)
-            if b is None or a[0] != b[0] or a[1] != b[1] or a[2] != b[2] or a[3:] != b[3:]:
+            if b is None or a[0] != b[0] or a[1] != b[1] or a[3:] != b[3:]:
+                return False
+            # a moved link is the same link: the target it stores (relative to itself, what readlink returns and an
+            # observer of the real filesystem sees) is unchanged; what that resolves to from the new place may differ
+            if pre["ents"][p]["rel"] != post["ents"][q]["rel"]:
                 return False
     for p in set(pe) | set(post["ents"]):
         if under(p, src) or under(p, dt):
